@@ -591,3 +591,97 @@ Proof.
     destruct (dget c (dblocks v bl T)) as [b|] eqn:E; [|reflexivity]. cbn [option_map].
     rewrite (Hoth c b Hc E). reflexivity.
 Qed.
+
+(* ================================================================== 4. OpenFile: refusals, and the open that keeps the file *)
+(* any refusal after a calm run: the observation is unchanged *)
+Lemma open_refused_content fsz vid s s' a name md e : observes fsz vid s a -> fs_inv fsz vid s' -> calm s s' ->
+  exists a', observes fsz vid s' a' /\ open_content name md (s_clock s) (Err e) a a'.
+Proof. intros Ho Hinv' Hc. exact (content_calm fsz vid s s' a Ho Hinv' Hc). Qed.
+
+(* the chain of a record whose entry is the entry of a node is the chain of that node *)
+Lemma fchain_node d v e ch f : entry_chain d v e ch -> f_entry f = e -> fchain d v f = ch.
+Proof.
+  intros [(A1 & fu & A2)|(A1 & ->)] E; unfold fchain; rewrite E.
+  - replace (e_cluster e <? 2) with false by (symmetry; apply N.ltb_ge; exact A1).
+    exact (chain_l_at _ _ _ _ (chain_at_any _ _ _ _ _ A2)).
+  - replace (e_cluster e <? 2) with true by (symmetry; apply N.ltb_lt; exact A1). reflexivity.
+Qed.
+
+Lemma open_keep_content fsz vid s vi v bl rch T h name di dd sfn bl' parent kids s1 md t r s' :
+  open_ctx fsz vid s vi v bl rch T h name di dd sfn bl' parent kids s1 ->
+  find (t_matches sfn) (live_in_blocks (s_disk s) bl') = Some t ->
+  PrModes.open_refusal md (Ok (t_entry (v_fat32 v) t)) (PrModes.is_open s1 (d_vol dd) (t_entry (v_fat32 v) t)) = None ->
+  md = ReadOnly \/ md = ReadWriteAppend \/ md = ReadWriteCreateOrAppend ->
+  fs_inv fsz vid s' -> step (OpenFile h name md) s = (r, s') ->
+  exists a', observes fsz vid s' a' /\ open_content name md (s_clock s) r (obs_at s v bl T) a'.
+Proof.
+  intros [Hat Hfresh Hres Hvol Hroom Hsfn He5 Hdot Hctx Hlook Hro Hrd] Hfind Href Hmd Hinv' Hs.
+  rewrite Hfind in Hlook. set (e := t_entry (v_fat32 v) t) in *.
+  pose proof (PrModes.C07_open_existing_keep s h di dd 0%nat v name sfn md e s1 Hres Hroom Hsfn Hdot Hlook Href Hmd) as Hopen.
+  cbn [step] in Hs. rewrite (lift_ok' _ _ _ _ _ Hopen) in Hs. injection Hs as <- <-.
+  destruct (refusal_none_ok _ _ _ Href) as (Hop & Hnd & _).
+  pose proof Hro as (Hd & _ & _ & (M1 & _ & M3 & M4 & _)).
+  pose proof (go_ro _ _ _ _ _ _ _ _ _ Hat Hro) as Hat1.
+  pose proof (sfn_of_str_wf _ _ Hsfn) as Hwf.
+  destruct (found_file _ _ _ _ _ _ _ _ _ _ Hctx Hwf He5 Hdot Hfind Hnd) as (ch & Hk & Hall & Hr & Hn & Hshort & Hname).
+  fold e in Hk, Hall, Hr.
+  pose proof (dx_kids_ok _ _ _ _ _ _ _ _ Hctx) as Hkok. rewrite Forall_forall in Hkok.
+  pose proof (Hkok _ Hk) as Hok. apply node_ok_file in Hok. destruct Hok as (Hsz & H32).
+  pose proof Hr as Hr0. apply node_rep_file in Hr0. destruct Hr0 as (_ & _ & Hech).
+  set (md1 := solve_mode_variant md true).
+  set (nf := mk_fileinfo (s_next_id s1) (d_vol dd) 0 (e_cluster e) (PrModes.start_offset md e) md1 e false).
+  set (s5 := set_s_files (set_s_next_id s1 ((s_next_id s1 + 1) mod U32)) (s_files s1 ++ [nf])) in *.
+  set (p := node_pos (NFile e ch)).
+  assert (Hd5 : s_disk s5 = s_disk s) by exact Hd.
+  assert (Hv5 : s_vols s5 = [v]) by (change (s_vols s5) with (s_vols s1); rewrite M1; exact (fi_single _ _ _ _ _ _ _ _ Hat)).
+  assert (Hf5 : s_files s5 = s_files s ++ [nf]) by (change (s_files s5) with (s_files s1 ++ [nf]); rewrite M3; reflexivity).
+  pose proof (fi_disk _ _ _ _ _ _ _ _ Hat) as Hdi.
+  destruct (fs_inv_at_of fsz vid s5 v bl rch T Hinv' Hv5 ltac:(rewrite Hd5; exact (di_root _ _ _ _ _ _ Hdi))
+              ltac:(rewrite Hd5; exact (di_tree _ _ _ _ _ _ Hdi))) as (vi5 & Hat5).
+  assert (Hnokey : ~ In p (map slot_key (s_files s))).
+  { rewrite <- M3. rewrite Hvol in Hop. exact (not_open_key s1 (v_id v) e Hop (files_on_vol _ _ _ _ _ _ _ _ Hat1)). }
+  assert (Hkey : slot_key nf = p) by reflexivity.
+  assert (Hmemp : vget p (mem_view s v T) = Some (disk_fv (s_disk s) v (NFile e ch))).
+  { apply (vget_mem_closed fsz vid s vi v bl rch T Hat e ch Hall). intros f Hf E. apply Hnokey. fold p in E. rewrite <- E.
+    apply in_map. exact Hf. }
+  assert (Hoth : others_same p (obs_at s v bl T) (obs_at s5 v bl T)).
+  { apply (others_same_open fsz vid s vi v bl rch T Hat s5 vi5 v bl rch T p nf Hat5 (geo_eq_refl v) Hf5 Hkey).
+    - intros e0 ch0 _. tauto.
+    - intros e0 ch0 _ _. rewrite Hd5. reflexivity.
+    - intros f _. unfold mem_fv. rewrite Hd5. reflexivity. }
+  exists (obs_at s5 v bl T). split; [exact (observes_at _ _ _ _ _ _ _ _ Hat5)|].
+  unfold open_content. cbn [obs_at ob_handles ob_mem ob_disk ob_dirs].
+  split; [rewrite M4; exact (hget_fresh s Hfresh)|].
+  exists sfn, p, md1. split; [exact Hsfn|]. split; [exact (not_open_intro s v bl T p Hnokey)|].
+  rewrite Hmemp. split; [reflexivity|]. split; [exact Hoth|].
+  split; [unfold disk_fv, fv_of; cbn [fv_name node_entry]; unfold e; rewrite t_entry_name; exact Hname|].
+  left. split; [destruct Hmd as [-> | [-> | ->]]; cbn; auto|].
+  assert (Hnfv : mem_fv s5 v nf = disk_fv (s_disk s) v (NFile e ch)).
+  { unfold mem_fv, disk_fv. cbn [f_entry nf node_entry node_chain]. rewrite Hd5.
+    rewrite (fchain_node (s_disk s) v e ch nf Hech eq_refl). reflexivity. }
+  split; [|split].
+  - (* files_same *) intros q. destruct (pos_eqb q p) eqn:Eq.
+    + apply pos_eqb_eq in Eq. subst q. split.
+      * cbn [obs_at ob_mem]. rewrite Hmemp. rewrite <- Hkey.
+        rewrite (vget_mem_open fsz vid s5 vi5 v bl rch T Hat5 nf ltac:(rewrite Hf5; apply in_or_app; right; left; reflexivity)).
+        rewrite Hnfv. reflexivity.
+      * cbn [obs_at ob_disk]. rewrite Hd5. reflexivity.
+    + apply Hoth. intros E. rewrite E, pos_eqb_refl in Eq. discriminate.
+  - (* dirs_same *) intros c. cbn [obs_at ob_dirs]. rewrite Hd5. reflexivity.
+  - (* the new handle *) intros k. cbn [obs_at ob_handles].
+    rewrite (handles_snoc s s5 nf Hf5 ltac:(cbn [f_id nf]; rewrite M4; exact (hget_fresh s Hfresh)) k).
+    cbn [f_id nf]. destruct (k =? s_next_id s1); [|reflexivity]. f_equal.
+    unfold hinfo_of. cbn [f_mode f_offset f_dirty nf]. rewrite Hkey. f_equal.
+    pose proof (fv_of_len fsz vid s vi v bl rch T Hat e ch Hsz) as Hlen.
+    unfold disk_fv. cbn [node_entry node_chain].
+    destruct Hmd as [-> | [-> | ->]]; cbn [PrModes.start_offset md1 solve_mode_variant open_model_off]; try reflexivity;
+      symmetry; exact Hlen.
+Qed.
+
+Print Assumptions content_OpenRoot.
+Print Assumptions content_OpenDir.
+Print Assumptions content_CloseDir.
+Print Assumptions content_Find.
+Print Assumptions content_Iter.
+Print Assumptions content_Label.
+Print Assumptions open_keep_content.
